@@ -17,7 +17,7 @@ RULE = {"C08": "generated robot definitions: 1-4 components (own and inherited a
                "falsy value, None, preset on the class, set in __init__, private, generic alias, other component}; robotInit() "
                "runs for real.  Also: components that are StateMachines, two components of one class, falsy component / mode objects, robot attributes that are callable objects (instance with __call__, functools.partial, class object), FMS attached at start-up.  Non-trivial = >=2 components and >=1 of {prefixed, falsy, cross-component, error}; distinct = "
                "hash of the definition."}
-REQUIRED = {"C08": {"rel:reannotated-in-subclass": 30, "constructor-annotations-are-strings": 50, "structural-or-mock-instance": 50, "falsy-component-or-mode": 100, "callable-robot-attribute": 50, "rel:plain": 200, "rel:prefixed": 100, "rel:both": 50, "rel:falsy": 100, "rel:subclass": 50, "rel:bool-for-int": 30,
+REQUIRED = {"C08": {"private-annotation-on-robot-class": 100, "rel:reannotated-in-subclass": 30, "constructor-annotations-are-strings": 50, "structural-or-mock-instance": 50, "falsy-component-or-mode": 100, "callable-robot-attribute": 50, "rel:plain": 200, "rel:prefixed": 100, "rel:both": 50, "rel:falsy": 100, "rel:subclass": 50, "rel:bool-for-int": 30,
                     "rel:generic-alias": 30, "rel:preset-class": 50, "rel:preset-init": 50, "rel:private": 50, "rel:component-earlier": 50,
                     "rel:component-later": 50, "rel:absent": 50, "rel:wrong-type": 50, "rel:wrong-type-prefixed": 20, "rel:none": 20, "rel:ctor-param": 50,
                     "rel:inherited-annotation": 50, "rel:mode-target": 50, "rel:one-class-two-components": 50, "rel:one-statemachine-class-two-components": 20, "fms-attached-at-startup": 100,
@@ -416,6 +416,10 @@ def run_case(acc, case):
     robot_objs = {n: make_value(tuple(r["value"])) for n, r in case["robot_attrs"].items()}
     order, split = case["order"], case["split"]
     body0 = {"__annotations__": {n: _COMP_CLASSES[n] for n in order[:split]}}
+    if stable_hash(case["uid"]) % 3 == 0:
+        # a private annotated variable on the robot class is not a component declaration
+        body0["__annotations__"]["_helper_" + case["uid"]] = T["T0"]
+        acc.ev("private-annotation-on-robot-class")
     body1 = {"__annotations__": {n: _COMP_CLASSES[n] for n in order[split:]}}
     for n, r in case["robot_attrs"].items():
         if r["where"] == "class0":
